@@ -142,6 +142,12 @@ def sym_matches(rsym, act_fn, rtol=1e-9):
             continue
         if not isinstance(ref, V):
             continue
+        if ref.kind != "int" and any(v.kind == "int" for v in beta.values()):
+            # integer sample values are used for integer formulas only (integer coefficients, + - * and non-negative integer
+            # powers): there every algebraically equal arrangement is exact in integer arithmetic.  With a float coefficient or a
+            # division the implementation may legitimately evaluate a rearranged form (SymPy distributes 3e-11*(q0 - q1) and folds
+            # constants), whose rounding errors large, close integers amplify -- not a violation of the written formula
+            continue
         # conditioning at the looser tolerance
         if ref.kind != "int" and (ref.v == 0 or ref.err > cond * ref.mag):
             continue
